@@ -409,6 +409,18 @@ class Engine(object):
         self._add_pc(cond if d else z3.Not(cond))
         return d
 
+    def assume_prefix(self, v, lit):
+        """assume the str value v starts with the literal `lit` and remember it for concat-aware startswith decisions"""
+        t = sym.sstr(v)
+        self.assume(z3.PrefixOf(z3.StringVal(lit), t))
+        self.path.refs[("prefix", t.get_id())] = (t, lit)
+
+    def known_prefix(self, t):
+        hit = self.path.refs.get(("prefix", t.get_id()))
+        if hit is not None and hit[0].eq(t):
+            return hit[1]
+        return None
+
     def havoc(self, reason):
         if reason not in self.path.havoc:
             self.path.havoc.append(reason)
